@@ -1,4 +1,4 @@
-\* C20: edges declared from the other end with module_antidepends() (a back-end pulls in / names its user): every case on <= 3 modules whose declarations are consistent (ModLoadContract!Consistent), module_depends() calls before module_antidepends() calls in name order, every listing, all entry points
+\* C20: edges declared from the other end with module_antidepends() (a back-end pulls in / names its user): every case on <= 3 modules, module_depends() calls before module_antidepends() calls in name order, every listing, all entry points
 SPECIFICATION Spec
 CONSTANTS
     Source = "enum"
